@@ -1,5 +1,5 @@
 (* C15 - property theorems: proxy services relay unchanged to the configured backend. *)
-From HT Require Import Common.Bytes C15.Model C15.Check C15.Proofs.
+From HT Require Import Common.Bytes C15.Model C15.Proofs.
 From Coq Require Import Permutation.
 Open Scope Z_scope.
 
@@ -52,22 +52,25 @@ Proof. exact frame_resp_sd. Qed.
 
 (* re-serialisation by net/http, as modelled: method, target, host, body and transfer
    coding unchanged; the header fields are a permutation of the client's - after the
-   User-Agent rule (see C15_http_user_agent_refuted) *)
+   User-Agent rule (see C15_http_user_agent_refuted) and the Pragma rule (pragma_fix) *)
 Theorem C15_http_reserialisation_contract : forall m,
   let m' := reser_req m in
   r_method m' = r_method m /\ r_target m' = r_target m /\ r_host m' = r_host m /\
   r_chunked m' = r_chunked m /\ r_body m' = r_body m /\
-  Permutation (r_headers m') (ua_fix (r_headers m)).
+  Permutation (r_headers m') (ua_fix (pragma_fix (r_headers m))).
 Proof. exact reser_req_contract. Qed.
 
+(* a request with a non-empty User-Agent and without a lone "Pragma" keeps exactly its fields *)
 Theorem C15_http_request_headers_kept : forall m v,
-  hget S_UA (r_headers m) = Some v -> v <> [] -> Permutation (r_headers (reser_req m)) (r_headers m).
+  hget S_UA (r_headers m) = Some v -> v <> [] ->
+  hget S_PRAGMA (r_headers m) = None \/ hget S_CC (r_headers m) <> None ->
+  Permutation (r_headers (reser_req m)) (r_headers m).
 Proof. exact reser_req_same_headers. Qed.
 
 Theorem C15_http_reply_contract : forall p,
   let p' := reser_resp p in
   p_status p' = p_status p /\ p_chunked p' = p_chunked p /\ p_body p' = p_body p /\
-  Permutation (p_headers p') (p_headers p).
+  Permutation (p_headers p') (pragma_fix (p_headers p)).
 Proof. exact reser_resp_contract. Qed.
 
 (* defects of the unchanged code (the model is faithful to them) *)
